@@ -254,6 +254,43 @@ fn run_vm(src: &str, times: usize) -> Result<Vec<f64>, String> {
     }
     Ok(out)
 }
+fn run_vm_sched(src: &str, times: usize) -> Result<Vec<f64>, String> {
+    use mimium_audiodriver::{backends::local_buffer::LocalBufferDriver, driver::{Driver, RuntimeData}};
+    use mimium_lang::{Config, ExecContext, plugin::Plugin};
+    let mut driver = LocalBufferDriver::new(times as _);
+    let audiodriverplug: Box<dyn Plugin> = Box::new(driver.get_as_plugin());
+    let mut ctx = ExecContext::new([audiodriverplug].into_iter(), None, Config::default());
+    ctx.add_system_plugin(mimium_scheduler::get_default_scheduler_plugin());
+    ctx.prepare_machine(src).map_err(|e| e.iter().map(|x| x.get_message()).collect::<Vec<_>>().join("; "))?;
+    let _ = ctx.run_main();
+    let runtimedata = { let c: &mut ExecContext = &mut ctx; RuntimeData::try_from(c).map_err(|_| "no runtime data".to_string())? };
+    driver.init(runtimedata, None);
+    driver.play();
+    Ok(driver.get_generated_samples().to_vec())
+}
+fn schedvm_programs() -> Vec<(String, Vec<f64>, String)> {
+    let mut v = vec![];
+    let n = 8usize;
+    // tasks scheduled from dsp, K samples ahead
+    for k in 1..=3usize {
+        let src = format!("let x = 0.0\nfn bump(){{\n  x = x + 1.0\n}}\nfn dsp(){{\n  bump@(now+{k}.0)\n  x\n}}\n");
+        let expect: Vec<f64> = (0..n).map(|t| if t + 1 > k { (t + 1 - k) as f64 } else { 0.0 }).collect();
+        v.push((src, expect, format!("scheduled from dsp for now+{k}")));
+    }
+    // a self-rescheduling chain of period P started from global scope
+    for p in 1..=3usize {
+        let src = format!("let x = 0.0\nfn tick(){{\n  x = x + 1.0\n  tick@(now+{p}.0)\n}}\ntick@1.0\nfn dsp(){{\n  x\n}}\n");
+        let expect: Vec<f64> = (0..n).map(|t| if t >= 1 { ((t - 1) / p + 1) as f64 } else { 0.0 }).collect();
+        v.push((src, expect, format!("self-rescheduling chain of period {p}")));
+    }
+    // three one-shots scheduled from global scope in every order of times
+    for t1 in 1..=3usize { for t2 in 1..=3usize { for t3 in 1..=3usize {
+        let src = format!("let x = 0.0\nfn a(){{\n  x = x + 1.0\n}}\nfn b(){{\n  x = x + 10.0\n}}\nfn c(){{\n  x = x + 100.0\n}}\na@{t1}.0\nb@{t2}.0\nc@{t3}.0\nfn dsp(){{\n  x\n}}\n");
+        let expect: Vec<f64> = (0..6usize).map(|t| (if t1 <= t {1.0} else {0.0}) + (if t2 <= t {10.0} else {0.0}) + (if t3 <= t {100.0} else {0.0})).collect();
+        v.push((src, expect, format!("one-shots at {t1},{t2},{t3}")));
+    }}}
+    v
+}
 /// (program A, program B, samples before the swap, expected outputs after the swap, description)
 fn layout_programs() -> Vec<(String, String, usize, Vec<f64>, String)> {
     let mut v = vec![];
@@ -480,6 +517,31 @@ fn main() {
             }
             if let Some(c) = bad {
                 println!("FOUND index={i} value={desc:?} clause=C05[layout published for the function != run-time cell positions: untouched cell does not continue across a hot swap] {c}");
+                return;
+            }
+        }
+        println!("NONE tried={}", progs.len());
+        return;
+    }
+    if args.get(1).map(|s| s.as_str()) == Some("schedvm-search") || args.get(1).map(|s| s.as_str()) == Some("schedvm-run") {
+        // property C11 on the NATIVE VM (SchedulerAudioWorker::on_sample driven by the real local-buffer driver):
+        // small programs whose output is a closed form of "every task runs exactly once at its sample, before dsp"
+        let progs = schedvm_programs();
+        let only: Option<usize> = args.get(2).and_then(|s| s.parse().ok());
+        for (i, (src, expect, desc)) in progs.iter().enumerate() {
+            if let Some(o) = only { if o != i { continue; } }
+            let got = std::panic::catch_unwind(|| run_vm_sched(src, expect.len()));
+            let bad = match got {
+                Ok(Ok(v)) => if v == *expect { None } else { Some(format!("got {v:?} expected {expect:?}")) },
+                Ok(Err(e)) => Some(format!("rejected: {e}")),
+                Err(_) => Some("the VM scheduler panicked".to_string()),
+            };
+            if args[1] == "schedvm-run" {
+                match bad { Some(c) => println!("FAILS SchedulerAudioWorker::on_sample::ensures[{desc}] {c}"), None => println!("HOLDS") }
+                return;
+            }
+            if let Some(c) = bad {
+                println!("FOUND index={i} value={desc:?} clause=SchedulerAudioWorker::on_sample::ensures[each task runs exactly once at the sample equal to its time, before dsp] {c}");
                 return;
             }
         }
